@@ -53,24 +53,14 @@ RangeOf(seq)  == { seq[k] : k \in 1..Len(seq) }
 BagEq(a, b)   == Len(a) = Len(b) /\ \A x \in RangeOf(a) \cup RangeOf(b) : Count(a, x) = Count(b, x)
 
 \* ------------------------------------------------------------------ FR3D
-UnitFields(u) == Split(u, "|")
-UnitOK(u) == LET f == UnitFields(u) IN Len(f) >= 5 /\ IsIntText(f[5])
-UnitInRange(u) == LET f == UnitFields(u) IN Len(IntBody(f[5])) <= 9        \* 32-bit guard (harness sanity)
-\* the residue a well-formed unit id denotes: as character sequences, and with atomic strings
-ResidueChars(u) == LET f == UnitFields(u) IN
-  [chain |-> f[3], number |-> IntOf(f[5]), icode |-> IF Len(f) >= 8 THEN f[8] ELSE <<>>, name |-> f[4]]
-ResidueOf(u) == LET r == ResidueChars(u) IN
-  [chain |-> Str(r.chain), number |-> r.number, icode |-> Str(r.icode), name |-> Str(r.name)]
-
-\* "blank" | "comment" | "fewparts" | "badunit" | "data"
-LineKind(l) ==
-  LET s == Strip(l) IN
-  IF s = <<>> THEN "blank"
-  ELSE IF s[1] = "#" THEN "comment"
-  ELSE LET p == Split(s, TAB) IN
-       IF Len(p) < 3 THEN "fewparts"
-       ELSE IF ~UnitOK(p[1]) \/ ~UnitOK(p[3]) THEN "badunit"
-       ELSE "data"
+\* a unit id, given as its '|'-separated fields f
+FieldsOK(f)      == Len(f) >= 5 /\ IsIntText(f[5])
+FieldsInRange(f) == Len(IntBody(f[5])) <= 9                               \* 32-bit guard (harness sanity)
+\* the residue a well-formed unit id denotes (atomic strings; the empty string = no insertion code)
+ResidueOfFields(f) ==
+  [chain |-> Str(f[3]), number |-> IntOf(f[5]), icode |-> IF Len(f) >= 8 THEN Str(f[8]) ELSE "", name |-> Str(f[4])]
+UnitOK(u)    == FieldsOK(Split(u, "|"))
+ResidueOf(u) == ResidueOfFields(Split(u, "|"))
 
 ListOf == [c \in Categories |->
              IF c = "base-pair" THEN "basePairs" ELSE IF c = "stacking" THEN "stackings"
@@ -81,16 +71,34 @@ TypeOf == [c \in Categories |->
              ELSE IF c = "base-ribose" THEN "BaseRibose"
              ELSE IF c = "base-phosphate" THEN "BasePhosphate" ELSE "OtherInteraction"]
 
-\* the one interaction a data line denotes
-InteractionOf(l) ==
-  LET p == Split(Strip(l), TAB)  cl == Classify(p[2]) IN
-  [cat |-> cl[1], cls |-> cl[2], list |-> ListOf[cl[1]], type |-> TypeOf[cl[1]],
-   r1 |-> ResidueOf(p[1]), r2 |-> ResidueOf(p[3])]
+NoResidue == [chain |-> "", number |-> 0, icode |-> "", name |-> ""]
+NoItem    == [cat |-> "none", cls |-> "", list |-> "", type |-> "", r1 |-> NoResidue, r2 |-> NoResidue]
+Skipped(kind) == [kind |-> kind, inrange |-> TRUE, item |-> NoItem]
 
-DataLines(lines) == SelectSeq(lines, LAMBDA l : LineKind(l) = "data")
-ExpectedInteractions(lines) == LET d == DataLines(lines) IN [k \in 1..Len(d) |-> InteractionOf(d[k])]
-LinesInRange(lines) == \A k \in 1..Len(lines) : LineKind(lines[k]) = "data" =>
-                          LET p == Split(Strip(lines[k]), TAB) IN UnitInRange(p[1]) /\ UnitInRange(p[3])
+\* What one raw line means.  kind: "blank" | "comment" | "fewparts" | "badunit" | "data";
+\* for a data line, item = the one interaction it denotes.
+LineParse(l) ==
+  LET s == Strip(l) IN
+  IF s = <<>> THEN Skipped("blank")
+  ELSE IF s[1] = "#" THEN Skipped("comment")
+  ELSE LET p == Split(s, TAB) IN
+       IF Len(p) < 3 THEN Skipped("fewparts")
+       ELSE LET f1 == Split(p[1], "|")  f2 == Split(p[3], "|") IN
+            IF ~FieldsOK(f1) \/ ~FieldsOK(f2) THEN Skipped("badunit")
+            ELSE LET cl == Classify(p[2]) IN
+                 [kind |-> "data", inrange |-> FieldsInRange(f1) /\ FieldsInRange(f2),
+                  item |-> [cat |-> cl[1], cls |-> cl[2], list |-> ListOf[cl[1]], type |-> TypeOf[cl[1]],
+                            r1 |-> ResidueOfFields(f1), r2 |-> ResidueOfFields(f2)]]
+LineKind(l)      == LineParse(l).kind
+InteractionOf(l) == LineParse(l).item
+
+\* every line parsed once (a concrete tuple)
+RECURSIVE ParseAll(_)
+ParseAll(lines) == IF lines = <<>> THEN <<>> ELSE <<LineParse(Head(lines))>> \o ParseAll(Tail(lines))
+\* P = ParseAll(lines): the interactions the listing denotes, in file order
+ExpectedOfParsed(P) == LET d == SelectSeq(P, LAMBDA x : x.kind = "data") IN [k \in 1..Len(d) |-> d[k].item]
+ExpectedInteractions(lines) == ExpectedOfParsed(ParseAll(lines))
+ParsedInRange(P) == \A k \in 1..Len(P) : P[k].inrange
 
 \* a recorded item (JSON) in the same shape
 ItemOf(x) == [cat |-> x.cat, cls |-> x.cls, list |-> x.list, type |-> x.type,
@@ -112,11 +120,15 @@ DssrName(r) ==
 
 AfterLastColon(s) == LET f == Split(s, ":") IN f[Len(f)]
 
-\* index of the residue a DSSR name denotes, 0 = none
-Resolve(S, nm) ==
-  LET t == AfterLastColon(nm)  ks == { k \in 1..Len(S) : DssrName(S[k]) = t } IN
+\* the DSSR names of a structure, computed once per case (a concrete tuple)
+RECURSIVE NameTable(_)
+NameTable(S) == IF S = <<>> THEN <<>> ELSE <<DssrName(Head(S))>> \o NameTable(Tail(S))
+
+\* index of the residue a DSSR name denotes in the name table N, 0 = none
+Resolve(N, nm) ==
+  LET t == AfterLastColon(nm)  ks == { k \in 1..Len(N) : N[k] = t } IN
   IF ks = {} THEN 0 ELSE Min(ks)
-NamesDistinct(S) == \A i, j \in 1..Len(S) : i # j => DssrName(S[i]) # DssrName(S[j])
+NamesDistinct(N) == Cardinality(RangeOf(N)) = Len(N)
 
 \* names of class attributes that are not Leontis-Westhof classes (what Python's dir() adds)
 DunderNames == {"__class__", "__contains__", "__doc__", "__getitem__", "__init_subclass__", "__iter__",
@@ -124,23 +136,23 @@ DunderNames == {"__class__", "__contains__", "__doc__", "__getitem__", "__init_s
 
 \* pair = [has1, has2 : BOOLEAN, nt1, nt2 : Seq(Char), lwkind : "str" | "absent" | "null", lw : STRING]
 PairLwValid(p) == p.lwkind = "str" /\ p.lw \in LWNames
-PairKept(S, p) == /\ p.has1 /\ p.has2 /\ PairLwValid(p)
-                  /\ Resolve(S, p.nt1) # 0 /\ Resolve(S, p.nt2) # 0
-ExpectedPairs(S, pairs) ==
-  LET kept == SelectSeq(pairs, LAMBDA p : PairKept(S, p)) IN
-  [k \in 1..Len(kept) |-> <<Resolve(S, kept[k].nt1), Resolve(S, kept[k].nt2), kept[k].lw>>]
+PairKept(N, p) == /\ p.has1 /\ p.has2 /\ PairLwValid(p)
+                  /\ Resolve(N, p.nt1) # 0 /\ Resolve(N, p.nt2) # 0
+ExpectedPairs(N, pairs) ==
+  LET kept == SelectSeq(pairs, LAMBDA p : PairKept(N, p)) IN
+  [k \in 1..Len(kept) |-> <<Resolve(N, kept[k].nt1), Resolve(N, kept[k].nt2), kept[k].lw>>]
 
 \* stack = [has : BOOLEAN, nts : Seq(Char)]  (raw nts_long text)
 StackNames(st) == IF st.has THEN Split(st.nts, ",") ELSE << <<>> >>
-StackSteps(S, st) ==
+StackSteps(N, st) ==
   LET nm == StackNames(st)
-      ix == [k \in 1..Len(nm) |-> Resolve(S, nm[k])]
+      ix == [k \in 1..Len(nm) |-> Resolve(N, nm[k])]
       ok == { k \in 2..Len(nm) : ix[k - 1] # 0 /\ ix[k] # 0 } IN
   [j \in 1..Cardinality(ok) |-> LET k == CHOOSE x \in ok : Cardinality({ y \in ok : y < x }) = j - 1 IN
                                   <<ix[k - 1], ix[k]>>]
 RECURSIVE ExpectedStackings(_, _)
-ExpectedStackings(S, stacks) ==
-  IF stacks = <<>> THEN <<>> ELSE StackSteps(S, Head(stacks)) \o ExpectedStackings(S, Tail(stacks))
+ExpectedStackings(N, stacks) ==
+  IF stacks = <<>> THEN <<>> ELSE StackSteps(N, Head(stacks)) \o ExpectedStackings(N, Tail(stacks))
 
 \* ------------------------------------------------------------------ template domains (Gen / MC)
 \* abstract shape of one unit id
